@@ -354,6 +354,7 @@ struct ActiveCase {
   std::vector<AnswerDef> earlierAnswers;     // registered first under keys that `answers` registers again (the later registration counts)
   std::string desc;
   bool respBurst = false; // the addressed participant's acknowledge + response arrive in one piece
+  int echoGlue = 0;       // percent of the reactions to a command that arrive in one read together with the echo of the host's CRC
   int synGlue = 0;        // percent of the SYNs that reach the host in one read together with the start of a following foreign telegram
   int burst = 1;          // foreign traffic reaches the host in arrival bursts of up to that many bytes
   int busSynMode = 0;     // 0: the bus has its own SYN generator, 1: it has none (the host must generate), 2: it fails after the script
@@ -403,6 +404,7 @@ static bool runActive(Rng& r, const ActiveCase& c, const std::string& tag, const
   w.bus.respBurst = c.respBurst;
   w.bus.burst = c.burst;
   w.bus.gluePct = c.synGlue;
+  w.bus.echoGluePct = c.echoGlue;
   for (auto& p : c.peers) w.bus.peers.push_back(p);
   Item s; s.kind = Item::SYN;
   for (int i = 0; i < 4; i++) w.bus.script.push_back(s);
@@ -446,6 +448,7 @@ static bool runActive(Rng& r, const ActiveCase& c, const std::string& tag, const
   st.n["steps"] += w.steps;
   st.n["bus_bytes"] += (long long)w.bus.log.size();
   st.n["syn_glued_with_following_symbols"] += w.bus.glued;
+  st.n["echo_glued_with_reaction"] += w.bus.echoGlued;
   for (auto& sb : subs) w.handler->takeFinished(sb.req);
   MonConfig mc{c.cfg.own, c.cfg.readOnly, c.cfg.generateSyn, c.cfg.enhanced, c.cfg.answer, c.answers};
   std::vector<ReqInfo> reqs;
@@ -539,6 +542,7 @@ static void modeActive(long ncases, const std::string& which) {
     c.burst = which == "c03" && r.chance(1, 3) ? r.pick(std::vector<int>{2, 3, 5}) : 1;
     bool hostileTraffic = which == "c03";
     c.synGlue = r.chance(1, 3) ? r.pick(std::vector<int>{20, 50, 100}) : 0;
+    c.echoGlue = r.chance(1, 3) ? r.pick(std::vector<int>{30, 100}) : 0;
     int nreq = r.range(1, 3);
     int64_t at = (int64_t)r.range(150, 400) * MS;
     for (int k = 0; k < nreq; k++) {
